@@ -64,7 +64,7 @@ func init() {
 			"x EVERY argument vector of length 0..3 (quick) / 0..5 (thorough) over {integer, each declared keyword, a foreign keyword}, then a seed-independent probe block of 44 boundary " +
 			"vectors per lambda list (too few/exact/too many positionals x key order, duplicates, keyword as value, unknown key, odd tail, non-keyword key, keyword naming a non-key parameter), " +
 			"the same probes on 128 variant lambda lists (init forms that must be evaluated, &allow-other-keys, &key without names, aux initialised from a variable), " +
-			"a block of calls made where the caller has variables named like the parameters, then seeded vectors of length 0..8; " +
+			"a block of calls made where the caller has variables named like the parameters, a block where every optional and key is supplied with nil, t or a value equal to its own default, then seeded vectors of length 0..8 (values: integers, nil, t, own default); " +
 			"every case is called through defun (evaluated and compiled), funcall of the symbol, funcall/apply of a lambda, a lambda in operator position and multiple-value-call. " +
 			"part B: every function of every package (enumerated at run time) x every argument count 0..documented maximum+2 x six argument flavours. " +
 			"distinct = distinct case JSON; non-trivial = judged against the reference binder (A) or a callable, not denylisted function with a readable documented lambda list (B). " +
